@@ -45,7 +45,7 @@ enum {
     OP_NONE = 0, OP_CREATE, OP_LOCK, OP_UNLOCK, OP_WAIT, OP_WAKE, OP_RELOCK, OP_SIGNAL, OP_BCAST,
     OP_KILL, OP_CANCEL, OP_SIGMASK, OP_SIGWAIT, OP_RAISE, OP_TIME, OP_SLEEP, OP_POLL, OP_READ,
     OP_CLOSE, OP_FPUTS, OP_CONNBEGIN, OP_CONNEND, OP_DESTROYBEGIN, OP_DESTROYEND, OP_FWD,
-    OP_RETURN, OP_NKINDS
+    OP_RETURN, OP_JOIN, OP_NKINDS
 };
 
 /* yield classes */
